@@ -6,7 +6,7 @@ REQUIRED = ["DaeVerif.C17.Props." + n for n in [
     "parse_total", "tokens_iff_tree", "parse_spells", "lexer_reads_back", "parse_render",
     "parse_render_canonical", "wfCheck_establishes_WF", "skips_whitespace", "skips_line_comment", "skips_block_comment", "skips_concat",
     "walk_keeps_every_item", "walkFn_faithful",
-    "merge_order", "merge_into_appends", "circular_include_rejected", "include_of_visited_rejected",
+    "merge_order", "relative_includes_resolve_against_entry_dir", "merge_into_appends", "circular_include_rejected", "include_of_visited_rejected",
     "merge_no_file_twice", "merge_reads_confined", "confined_means_under", "merge_terminates", "merge_terminates_full",
     "unknown_section_rejected", "missing_required_section_rejected", "unknown_key_rejected",
     "missing_required_key_rejected", "defaults_applied", "defaults_applied_scalar", "defaults_applied_any_depth",
